@@ -1,11 +1,16 @@
 #![allow(dead_code)]
 mod absty;
+mod absval;
+mod corpus;
 mod gen;
 mod hash;
 mod leb;
+mod msg;
+mod native;
 mod principal;
 mod proj;
 mod sub;
+mod suite;
 mod util;
 
 fn main() {
@@ -17,6 +22,9 @@ fn main() {
         "leb" => leb::run(&o),
         "hash" => hash::run(&o),
         "sub" => sub::run(&o),
+        "suite" => suite::run(&o),
+        "msg" => msg::run(&o),
+        "native" => native::run(&o),
         "principal" => principal::run(&o),
         m => { eprintln!("usage: unknown mode {m}"); std::process::exit(2); }
     }
